@@ -2,6 +2,7 @@ package props
 
 import (
 	"bytes"
+	"compress/gzip"
 	"crypto/md5"
 	"crypto/sha1"
 	"crypto/sha256"
@@ -100,6 +101,33 @@ func (k *sumKeeper) poll(hs []*hashio.Hasher) {
 }
 
 var hashioImpl = map[string]core.Adapter{
+	// GetCompressor: known names give a compressor whose output decompresses to what was written
+	"compressor": func(a []string) string {
+		c, err := hashio.GetCompressor(core.MustUnHex(a[0]))
+		if err != nil {
+			if c != nil {
+				return "err+value"
+			}
+			return "err"
+		}
+		var buf bytes.Buffer
+		w, err := c(&buf)
+		if err != nil {
+			return "compressor-fails"
+		}
+		payload := []byte(strings.Repeat("payload "+a[0], 50))
+		w.Write(payload)
+		w.Close()
+		zr, err := gzip.NewReader(&buf)
+		if err != nil {
+			return "not-gzip"
+		}
+		back, _ := io.ReadAll(zr)
+		if !bytes.Equal(back, payload) {
+			return "round-trip-differs"
+		}
+		return "ok"
+	},
 	"hashpipe": func(a []string) string {
 		mode := a[0]
 		ct := &countedTokens{ts: a[1:]}
@@ -345,6 +373,9 @@ func digestTable(algs []string, msgs [][]byte) []string {
 func streamHashio(g *core.G) {
 	r := g.R
 	algs := []string{"md5", "sha1", "sha256", "sha512"}
+	for _, nm := range []string{"gz", "", "gzip", "GZ", "xz", "bz2", "gz ", ".gz", "g", "zst"} {
+		g.Emit("compressor", core.Hex(nm))
+	}
 	n := g.N(1500, 60000)
 	for i := 0; i < n; i++ {
 		var chunks []string
